@@ -35,7 +35,8 @@ def stateDiff (m i : State) : Option String :=
         | some s => some s!"db={d} store {s}"
         | none => if a.vol != c.vol then some s!"db={d} volatile model={a.vol.map toHex} impl={c.vol.map toHex}"
                   else some s!"db={d} store order"
-  r.orElse fun _ => some "dbs differ"
+  (r.orElse fun _ => if m.conns != i.conns then some s!"connections model={m.conns} impl={i.conns}" else none).orElse fun _ =>
+    if m.embDb != i.embDb then some s!"embedded db model={m.embDb} impl={i.embDb}" else some "dbs differ"
 
 /-- strip `pre` from the front of `bs` -/
 def stripPrefix (pre bs : Bytes) : Option Bytes :=
@@ -78,7 +79,14 @@ def hintOf : Observed → List Bytes
     | _ => []
   | _ => []
 
+/-- the database the dispatcher puts in the request context (sugardb/modules.go:108-121) -/
+def callerDb (t : Transition) : Nat :=
+  match t.ctx.conn with
+  | none => t.pre.embDb
+  | some id => (NMap.get t.pre.conns id).getD 0
+
 def verdictWith (t : Transition) (order : Nat) : String :=
+  if callerDb t != t.ctx.db then s!"DIFF context-db dispatcher={t.ctx.db} connection-table={callerDb t}" else
   let ctx := { t.ctx with order := order, hint := hintOf t.obs }
   match step ctx t.pre t.cmd with
   | none => "SKIP unmodelled-command"
@@ -134,9 +142,33 @@ def dbOrEmpty (s : State) (j : Nat) : Db := canonDb (s.db j)
 
 def allDbIdx (t : Transition) : List Nat := ((t.pre.dbs.map (·.1)) ++ (t.post.dbs.map (·.1))).eraseDups
 
+/-- what the connection table must look like after the command (C20: SELECT moves only the issuing
+    connection, SWAPDB exchanges the two databases for every client connection, nothing else moves any) -/
+def expectedConns (t : Transition) : Option (NMap Nat) :=
+  let n := toLower (t.cmd.headD [])
+  let ok := match t.obs with
+    | .ok _ => true
+    | _ => false
+  let sortC (m : NMap Nat) := m.mergeSort (fun a c => a.1 ≤ c.1)
+  if n == b "select" && ok then
+    match t.ctx.conn, (t.cmd.getD 1 []) with
+    | some id, d => (parseInt64 d).map fun v => sortC (NMap.put t.pre.conns id v.toNat)
+    | none, _ => none            -- SELECT through the embedded API: not specified
+  else if n == b "swapdb" && ok then
+    match parseInt64 (t.cmd.getD 1 []), parseInt64 (t.cmd.getD 2 []) with
+    | some a, some c => some (sortC (t.pre.conns.map fun (id, d) => (id, if d == a.toNat then c.toNat else if d == c.toNat then a.toNat else d)))
+    | _, _ => none
+  else if n == b "hello" then none
+  else some (sortC t.pre.conns)
+
 def isoVerdict (t : Transition) : String :=
   let n := toLower (t.cmd.headD [])
-  if n == b "flushall" || n == b "swapdb" then "na" else
+  let connsOk := match expectedConns t with
+    | none => true
+    | some e => e == t.post.conns.mergeSort (fun a c => a.1 ≤ c.1)
+  let embOk := t.pre.embDb == t.post.embDb
+  if !connsOk then "rej:conn" else if !embOk then "rej:embedded" else
+  if n == b "flushall" then "na" else
   if (allDbIdx t).all fun j => j == t.ctx.db || dbOrEmpty t.pre j == dbOrEmpty t.post j then "adm" else "rej"
 
 def rowOf (name : Bytes) : Option Gen.CmdRow :=
